@@ -101,6 +101,11 @@ def generate(rnd, tier):
         for i_, r_ in enumerate(rows):
             if i_ % 4 == 2:
                 r_["label"] = None
+    if frame["int_scores"] and not frame.get("score_dtype") and rnd.random() < 0.25:
+        # integer scores (ids, hashes, raw counts) beyond 2**53, thresholds among them: float64 cannot tell neighbours apart
+        frame["bigint"] = True
+        for r_ in rows:
+            r_["score"] = 2 ** 53 + 2 * int(r_["score"]) + 1
     if rnd.random() < 0.12:
         frame["names"] = {"groups": rnd.sample(["label", "score", "group", "index", "groups", "threshold"], n_cols),
                           "label": rnd.choice(["y", "target", "labels"]), "score": rnd.choice(["s", "scores", "value"])}
@@ -111,7 +116,7 @@ def generate(rnd, tier):
         frame["score_dtype"] = rnd.choice(["float32", "float32", "float16"])
         for r_ in rows:
             r_["score"] = float(np.asarray(round(r_["score"], 1), dtype=frame["score_dtype"]))
-    if frame["int_scores"] and rnd.random() < 0.4:
+    if frame["int_scores"] and not frame.get("bigint") and rnd.random() < 0.4:
         frame["score_dtype"] = rnd.choice(["uint8", "uint16", "int32"])
         for r_ in rows:
             r_["score"] = float(abs(r_["score"]))
@@ -130,6 +135,10 @@ def generate(rnd, tier):
         else:
             thr = sorted({rnd.choice([round(rnd.uniform(-3, 3), 1), float(rnd.randint(-3, 3))]) for _ in range(rnd.randint(1, 4))})
         boot = rnd.random() < (0.85 if wide else 0.6)
+        if frame.get("bigint"):
+            tkind = rnd.choice(["scalar", "list", "list", "array"])
+            cand_ = sorted({2 ** 53 + 2 * rnd.randint(-3, 3) + rnd.choice([0, 1, 2]) for _ in range(rnd.randint(1, 4))})
+            thr = cand_[0] if tkind == "scalar" else cand_
         op = {"op": "showbias", "metric": rnd.choice(METRICS) if rnd.random() < 0.7 else rnd.choice(["fnr", "fpr", "tpr", "ppv"]),
               "threshold": thr, "tkind": tkind, "normalize": rnd.choice([None, None, "by_overall", "by_min"]),
               "score_class": rnd.choice(["pos", "neg"]), "equal_class": rnd.choice(["pos", "neg"]),
@@ -250,8 +259,14 @@ def metric_value(name, tp, fn, fp, tn):
     return table[name]
 
 
+def as_num(x):
+    """Integer scores stay integers (exact beyond 2**53), everything else is compared as float64."""
+    a = np.asarray(x)
+    return a if a.dtype.kind in "iu" else a.astype(float)
+
+
 def counts(scores, is_pos, t, sc, ec):
-    top = M.decide_positive(np.asarray(scores, dtype=float), t, sc, ec)
+    top = M.decide_positive(as_num(scores), t, sc, ec)
     is_pos = np.asarray(is_pos, dtype=bool)
     tp = int(np.sum(top & is_pos))
     fn = int(np.sum(~top & is_pos))
@@ -363,6 +378,13 @@ def execute(scn, ctx):
         tk = op.get("tkind", "list")
         thr_arg = thr_in if tk in ("scalar", "list") else tuple(thr_in) if tk == "tuple" else np.asarray(thr_in, dtype=float)
         tlist = [float(thr_in)] if tk == "scalar" else [float(t) for t in thr_in]
+        if fr.get("bigint"):
+            # integer scores and thresholds beyond 2**53: compared exactly, as integers
+            thr_arg = int(thr_in) if tk == "scalar" else [int(t) for t in thr_in] if tk in ("list", "tuple") else np.asarray([int(t) for t in thr_in], dtype=np.int64)
+            thr_arg = tuple(thr_arg) if tk == "tuple" else thr_arg
+            tvals = [int(thr_in)] if tk == "scalar" else [int(t) for t in thr_in]
+        else:
+            tvals = tlist
         thr_fp = M.fingerprint(thr_arg) if isinstance(thr_arg, np.ndarray) else None
         tags = {"normalize": norm, "bootstrap_ci": boot, "multi": multi}
         if len(distinct) == 1:
@@ -490,11 +512,11 @@ def execute(scn, ctx):
                     sel = [i for i, k in enumerate(keys) if k == lab]
                     s_ = [rows[i]["score"] for i in sel]
                     ip = [rows[i]["label"] == pos_label for i in sel]
-                    for b, t in enumerate(tlist):
+                    for b, t in enumerate(tvals):
                         raw[a, b] = metric_value(metric, *counts(s_, ip, t, sc, ec))
                 all_s = [r["score"] for r in rows]
                 all_p = [r["label"] == pos_label for r in rows]
-                overall = np.array([metric_value(metric, *counts(all_s, all_p, t, sc, ec)) for t in tlist])
+                overall = np.array([metric_value(metric, *counts(all_s, all_p, t, sc, ec)) for t in tvals])
                 if np.isnan(raw).any():
                     probe("nan_entry")
                 skip_norm = False
@@ -565,16 +587,16 @@ def execute(scn, ctx):
                                 reps_over = np.empty((N, T))
                                 absent = 0
                                 for j, s in enumerate(sampler.outputs):
-                                    allsc = np.concatenate([np.asarray(s.pos, dtype=float), np.asarray(s.neg, dtype=float)])
+                                    allsc = np.concatenate([as_num(s.pos), as_num(s.neg)])
                                     allp = np.concatenate([np.ones(len(s.pos), bool), np.zeros(len(s.neg), bool)])
                                     allg = np.concatenate([s.pos_groups, s.neg_groups]) if len(allsc) else np.asarray([])
                                     for a, lab in enumerate(got_labels):
                                         m_ = allg == mapping[lab] if len(allsc) else np.zeros(0, bool)
                                         if not np.any(m_):
                                             absent += 1
-                                        for b, t in enumerate(tlist):
+                                        for b, t in enumerate(tvals):
                                             reps[j, a, b] = metric_value(metric, *counts(allsc[m_], allp[m_], t, sc, ec))
-                                    for b, t in enumerate(tlist):
+                                    for b, t in enumerate(tvals):
                                         reps_over[j, b] = metric_value(metric, *counts(allsc, allp, t, sc, ec))
                                 if absent:
                                     probe("group_absent_in_resample", absent)
